@@ -2,12 +2,18 @@
    Proved so far: the decoder's base/extra/order tables, as regenerated from inflate/core.rs,
    ARE the RFC 1951 tables of the specification on all live symbols (finite, by kernel
    computation); the named constructs decode in model and specification (Examples).
+   Proved for the sub-language of byte-aligned stored blocks (what level 0 emits): the decoder model
+   M_inf, in one call on a flat buffer with enough room, decodes EVERY such stream to the bytes the
+   blocks carry, consuming all of it and reporting Done - the first instance of the simulation
+   M_inf -> specification (invariant over the states Start .. DoneForever of the stored-block path).
    The general statement (T_sim o T_abs, DESIGN.md 4.2) is open; it is decided per explored run
    by the extracted specification. *)
 From Coq Require Import NArith List.
+From MZ.lib Require Import Arr Mach.
 From MZ.gen Require GenTables.
 From MZ.spec Require DeflateSpec.
-From MZ.proofs Require Import DeflateFlags.
+From MZ.model Require Import InflateCore.
+From MZ.proofs Require Import DeflateFlags StoredSpec InflateStored.
 Import ListNotations.
 Local Open Scope N_scope.
 
@@ -18,3 +24,23 @@ Theorem C03_decoder_tables_are_rfc_tables :
   GenTables.t_HUFFMAN_LENGTH_ORDER = DeflateSpec.clen_order /\
   forallb (fun s => (if s <? 4 then 0 else N.shiftr s 1 - 1) =? tabn DeflateSpec.dist_extra s) (nrange 0 30) = true.
 Proof. exact inflate_tables_are_rfc. Qed.
+
+Theorem C03_stored_block_streams_decode_partial :
+  forall flags chunks last o res,
+  has flags F_ZLIB = false -> has flags F_STOPBB = false -> has flags F_NONWRAP = true ->
+  chunks_ok chunks -> bytes_ok last -> N.of_nat (length last) <= 65535 ->
+  N.of_nat (length (concat chunks ++ last)) <= alen o -> alen o <= USIZE_MAX ->
+  decompress dec_default (stored_stream chunks last) o 0 USIZE_MAX flags = Ret res ->
+  cr_status res = Done /\
+  cr_in res = N.of_nat (length (stored_stream chunks last)) /\
+  cr_out res = N.of_nat (length (concat chunks ++ last)) /\
+  aget_list (cr_buf res) 0 (cr_out res) = concat chunks ++ last.
+Proof. exact decompress_stored_stream. Qed.
+
+(* non-vacuity: the model does return on such a stream (two blocks, 3 + 2 bytes) *)
+Example C03_stored_stream_decodes :
+  match decompress dec_default (stored_stream [[1; 2; 3]] [4; 5]) (amake 5 0) 0 USIZE_MAX 4 with
+  | Ret res => cr_status res = Done /\ aget_list (cr_buf res) 0 5 = [1; 2; 3; 4; 5]
+  | _ => False
+  end.
+Proof. vm_compute. split; reflexivity. Qed.
